@@ -159,7 +159,9 @@ def sspeciesJ (x : SSpecies) : Json :=
 /-- the document of `writeModel`: the components of `exportModel` plus compartments and species attributes -/
 def sdoccJ (dc : SDocC) : Json :=
   (sdocJ dc.doc).mergeObj (Json.mkObj [("compartments", assocJ ratJ dc.compartments),
-                                      ("species_attrs", .arr (dc.species.map sspeciesJ).toArray)])
+                                      ("species_attrs", .arr (dc.species.map sspeciesJ).toArray),
+                                      ("modifiers", assocJ strsJ dc.modifiers), ("model_id", .str dc.modelId),
+                                      ("unit_ids", strsJ dc.unitIds)])
 
 /-- no exact value for sqrt, ln, sin, … : such results are reported as null -/
 def noInterp : Interp := fun _ _ => none
@@ -200,11 +202,18 @@ def handleModel (j : Json) : Except String Json := do
     | .ok .null => pure none
     | .ok cj => (jAssoc jRat cj).map some
     | .error _ => pure none
-  let wr := writeModel m comps
+  -- further options: {"model_name": s, "date": "YYYY-MM-DD", "unit_ids": [..]} (absent: the defaults of `write`)
+  let opts : WriteOpts := match j.getObjVal? "write_opts" with
+    | .ok oj =>
+      { modelName := (oj.getObjValAs? String "model_name").toOption.getD "model",
+        date := (oj.getObjValAs? String "date").toOption.getD "",
+        unitIds := ((oj.getObjVal? "unit_ids").toOption.bind fun u => (jList jStr u).toOption).getD ["per_second"] }
+    | .error _ => {}
+  let wr := writeModelFull m comps opts
   -- the component part, computed on its own: `exportModel` (references avoid the component names) and `exportModelFrom`
   -- with the names `_create_sbml_reactions` starts from (compartment ids included)
-  let plain := exportModel m
-  let from_ := (chooseCompartments m.names comps).bind fun cs => exportModelFrom (refTaken m cs) m
+  let plain := exportModel m.escArgs
+  let from_ := (chooseCompartments m.names comps).bind fun cs => exportModelFrom (refTaken m.escArgs cs) m.escArgs
   let ex := wr.map (·.doc)
   let base := [("unsupported", Json.bool unsupported), ("in_language", Json.bool inLanguage), ("export", exJ sdoccJ wr),
                ("export_plain", exJ sdocJ plain), ("export_from", exJ sdocJ from_),
